@@ -247,7 +247,7 @@ _CACHE: Dict[tuple, MaskResult] = {}
 
 
 def mask_of_graph(ctx, g) -> MaskResult:
-    key = (ctx.ix.digest + ctx.ix.repo, g.cfg.name)
+    key = (ctx.ix.digest + ctx.ix.repo + ctx.ix.serial, g.cfg.name)
     if key in _CACHE:
         return _CACHE[key]
     dom = MaskDomain(ctx.ix)
